@@ -16,6 +16,7 @@ import time
 
 from vf.common import case_hash, REPO
 
+THOROUGH_ROUNDS = 3   # default number of derived seeds drawn by the thorough tier (VERIF_ROUNDS overrides)
 HOME = os.environ.get("VERIF_HOME", os.path.dirname(os.path.dirname(os.path.abspath(__file__))))
 PY = os.environ.get("VERIF_PYTHON", "/venv/bin/python")
 
@@ -70,6 +71,7 @@ def main(argv=None):
         print("unknown tier", tier)
         return 2
     seed = int(os.environ.get("VERIF_SEED", "0") or 0)
+    rounds = max(1, int(os.environ.get("VERIF_ROUNDS", "") or (1 if tier == "quick" else THOROUGH_ROUNDS)))
     t_start = time.time()
     mod = importlib.import_module("vf.props.%s" % pid.lower())
 
@@ -78,7 +80,17 @@ def main(argv=None):
             rep = json.load(f)
         cases = [rep["case"]]
     else:
-        cases = list(mod.cases(seed, tier))
+        # rounds: the thorough tier draws the seeded part of the workload for several derived seeds (seed, seed+1000, ...);
+        # descriptors that do not depend on the seed (exhaustive / directed groups) are generated once
+        cases, seen = [], set()
+        for k in range(rounds):
+            for c in mod.cases(seed + 1000 * k, tier):
+                h = case_hash({kk: vv for kk, vv in c.items() if kk != "cid"})
+                if h in seen:
+                    continue
+                seen.add(h)
+                cases.append(c)
+        del seen
         if a.filter:
             cases = [c for c in cases if a.filter in json.dumps(c, sort_keys=True)]
         if a.max_cases:
@@ -90,7 +102,7 @@ def main(argv=None):
         return 2
 
     budget = getattr(mod, "BUDGET", {}).get(tier, {})
-    worker_timeout = budget.get("worker_timeout", 900 if tier == "quick" else 3600)
+    worker_timeout = budget.get("worker_timeout", 900 if tier == "quick" else 3600) * rounds
     per_case_timeout = budget.get("case_timeout", 120 if tier == "quick" else 300)
     nshards = a.shards or min(len(cases), a.jobs * getattr(mod, "SHARDS_PER_JOB", 1))
     workdir = tempfile.mkdtemp(prefix="vf-%s-" % pid, dir=_workroot())
@@ -130,6 +142,7 @@ def main(argv=None):
     finally:
         shutil.rmtree(workdir, ignore_errors=True)
 
+    a.rounds = rounds
     return decide(pid, tier, seed, mod, cases, results, worker_problems, xitorch_files, t_start, a)
 
 
@@ -227,7 +240,7 @@ def decide(pid, tier, seed, mod, cases, results, worker_problems, xitorch_files,
     # ---- evidence
     if not a.replay and not a.no_evidence and not a.max_cases and not a.filter:
         ev = {
-            "property_id": pid, "tier": tier, "seed": seed,
+            "property_id": pid, "tier": tier, "seed": seed, "seeds_drawn": [seed + 1000 * k for k in range(getattr(a, "rounds", 1))],
             "level": getattr(mod, "LEVEL", "exploration"),
             "coverage": {
                 "evaluations": n_eval,
@@ -258,8 +271,8 @@ def decide(pid, tier, seed, mod, cases, results, worker_problems, xitorch_files,
         os.replace(tmp, os.path.join(HOME, "evidence", "%s.json" % pid))
 
     # ---- report
-    print("property=%s tier=%s seed=%d cases=%d evaluated=%d nontrivial=%d wall=%.1fs" % (
-        pid, tier, seed, len(cases), n_eval, len(nontrivial_hashes), wall))
+    print("property=%s tier=%s seed=%d rounds=%d cases=%d evaluated=%d nontrivial=%d wall=%.1fs" % (
+        pid, tier, seed, getattr(a, "rounds", 1), len(cases), n_eval, len(nontrivial_hashes), wall))
     interesting = {k: v for k, v in sorted(counters.items())}
     print("observed: " + json.dumps(interesting))
     if skips:
